@@ -5,6 +5,7 @@ import (
 	"go/ast"
 	"go/parser"
 	"go/token"
+	"go/types"
 	"strconv"
 	"strings"
 
@@ -51,6 +52,9 @@ type Binding struct {
 	HasFParam    bool   // the stub takes a per-node function parameter f
 	SetsQF       bool   // the stub assigns cd.QuorumFunction
 	QFMethod     string // c.qspec.<X>QF invoked inside the quorum function wrapper
+	Promise      string // name of the promise type the stub returns (*AsyncX, *CorrectableX), if any
+	PromiseGet   string // first result type of (*Promise).Get, as written
+	QFReturns    string // first result type of the QuorumSpec method QFMethod, as written
 }
 
 // Bindings extracts, from an emitted *_gorums.pb.go source, the method-name
@@ -83,6 +87,13 @@ func Bindings(src string) (map[string]*Binding, error) {
 				continue
 			}
 			name := fd.Name.Name
+			if fd.Type.Results != nil && len(fd.Type.Results.List) == 1 {
+				if st, ok := fd.Type.Results.List[0].Type.(*ast.StarExpr); ok {
+					if id, ok := st.X.(*ast.Ident); ok && (strings.HasPrefix(id.Name, "Async") || strings.HasPrefix(id.Name, "Correctable")) {
+						get(name).Promise = id.Name
+					}
+				}
+			}
 			for _, prm := range fd.Type.Params.List {
 				for _, pn := range prm.Names {
 					if _, isFn := prm.Type.(*ast.FuncType); isFn && pn.Name == "f" {
@@ -179,6 +190,48 @@ func Bindings(src string) (map[string]*Binding, error) {
 			})
 		}
 	}
+	getRet := map[string]string{}
+	qfRet := map[string]string{}
+	for _, d := range f.Decls {
+		switch x := d.(type) {
+		case *ast.FuncDecl:
+			if x.Recv != nil && len(x.Recv.List) == 1 && x.Name.Name == "Get" && x.Type.Results != nil && len(x.Type.Results.List) > 0 {
+				rt := x.Recv.List[0].Type
+				if st, ok := rt.(*ast.StarExpr); ok {
+					rt = st.X
+				}
+				if id, ok := rt.(*ast.Ident); ok {
+					getRet[id.Name] = types.ExprString(x.Type.Results.List[0].Type)
+				}
+			}
+		case *ast.GenDecl:
+			for _, sp := range x.Specs {
+				ts, ok := sp.(*ast.TypeSpec)
+				if !ok || ts.Name.Name != "QuorumSpec" {
+					continue
+				}
+				it, ok := ts.Type.(*ast.InterfaceType)
+				if !ok {
+					continue
+				}
+				for _, m := range it.Methods.List {
+					ft, ok := m.Type.(*ast.FuncType)
+					if !ok || len(m.Names) != 1 || ft.Results == nil || len(ft.Results.List) == 0 {
+						continue
+					}
+					qfRet[m.Names[0].Name] = types.ExprString(ft.Results.List[0].Type)
+				}
+			}
+		}
+	}
+	for _, b := range out {
+		if b.Promise != "" {
+			b.PromiseGet = getRet[b.Promise]
+		}
+		if b.QFMethod != "" {
+			b.QFReturns = qfRet[b.QFMethod]
+		}
+	}
 	return out, nil
 }
 
@@ -235,6 +288,9 @@ func CheckBindings(fd *descriptorpb.FileDescriptorProto, src string) []string {
 				if !bi.SetsQF || bi.QFMethod != gn+"QF" {
 					bad = append(bad, fmt.Sprintf("%s: stub does not route replies to the quorum function %sQF (sets QuorumFunction: %v, calls %q)", full, gn, bi.SetsQF, bi.QFMethod))
 				}
+			}
+			if bi.Promise != "" && bi.QFMethod != "" && bi.PromiseGet != bi.QFReturns {
+				bad = append(bad, fmt.Sprintf("%s: the stub hands out a %s, whose Get returns %s, but the value comes from the quorum function %s, which returns %s (the typed accessor cannot convert it)", full, bi.Promise, bi.PromiseGet, bi.QFMethod, bi.QFReturns))
 			}
 			if o.Correctable {
 				// (a stub that does not mention the flag leaves it false)
